@@ -70,6 +70,9 @@ def run(rep, tier):
         rep.call(validators.constructors_validate, rep, prog, "C03.invariants")
         # the dynamic images unwrap the typed view of a buffer their constructor accepted
         rep.call(validators.align_reject, rep, prog, "C03.align-reject")
+        # ... and the alignment test of the constructors is unconditional (an exemption, e.g. for an
+        # image without pixels, is accepted by the constructor and panics in the typed accessors)
+        rep.call(validators.buffer_validators, rep, prog, "C03.buffers")
         rep.call(validators.unchecked_crop, rep, prog, "C03.unchecked-crop")
         rep.call(index_rules.unchecked_sites, rep, prog, "C03.unchecked-sites")
         rep.call(index_rules.nearest_index, rep, prog, "C03.index-nearest")
